@@ -96,6 +96,10 @@ func VerifyFunc(p *Program, fc *FuncContract) (g *Gen, err error) {
 	for _, fv := range fn.FreeVars {
 		v := f.val(fv)
 		g.assume(g.typeInv(v, entry.get("$alloc")))
+		// a captured variable is a cell the enclosing function allocated: never nil
+		if v.Sort == "Ptr" {
+			g.assume(app("not", eq(v.S, "nilptr")))
+		}
 	}
 	f.args = args
 	f.entry = entry
